@@ -1,4 +1,4 @@
-package simtest
+package sim
 
 import (
 	"bufio"
@@ -9,8 +9,6 @@ import (
 	"strings"
 	"testing"
 	"time"
-
-	"verif/sim"
 )
 
 func envU(name string, def uint64) uint64 {
@@ -55,22 +53,22 @@ func loadKnown(prop string) func(string) bool {
 	}
 }
 
-// TestWorker is the entry point used by /verif/check.
-func TestWorker(t *testing.T) {
+// WorkerMain is the entry point used by /verif/check (called from each property package's TestWorker).
+func WorkerMain(t *testing.T) {
 	prop := os.Getenv("VERIF_PROP")
 	if prop == "" {
 		t.Skip("VERIF_PROP not set")
 	}
 	out := os.Getenv("VERIF_OUT")
 	if rp := os.Getenv("VERIF_REPLAY"); rp != "" {
-		r, o, err := sim.ReplayFile(t, rp)
+		r, o, err := ReplayFile(t, rp)
 		res := map[string]any{"replay": rp}
 		if err != nil {
 			res["error"] = err.Error()
 		} else {
 			res["expected"] = r.Fingerprint
 			if o != nil && o.Violation != nil {
-				res["fingerprint"] = sim.Fingerprint(o.Violation)
+				res["fingerprint"] = Fingerprint(o.Violation)
 				res["detail"] = o.Violation.Detail
 			} else {
 				res["fingerprint"] = ""
@@ -91,7 +89,7 @@ func TestWorker(t *testing.T) {
 	first := envU("VERIF_FIRST", 0)
 	count := envU("VERIF_COUNT", 100)
 	budget := time.Duration(envU("VERIF_BUDGET_MS", 0)) * time.Millisecond
-	wr := sim.Worker(t, prop, os.Getenv("VERIF_SCENARIO"), base, first, count, budget, os.Getenv("VERIF_REPLAY_DIR"), loadKnown(prop))
+	wr := Worker(t, prop, os.Getenv("VERIF_SCENARIO"), base, first, count, budget, os.Getenv("VERIF_REPLAY_DIR"), loadKnown(prop))
 	b, _ := json.Marshal(wr)
 	if out != "" {
 		if err := os.WriteFile(out, b, 0o644); err != nil {
